@@ -229,6 +229,14 @@ class Walker:
                         bad[f'ili({i[0]!r})'] = f'reports {[got.id, got.status, got.definition()]}, the listing {i}'
                 except wn.Error as exc:
                     bad[f'ili({i[0]!r})'] = f'wn.Error: {exc}'
+        # ilis(status=...) through the same Wordnet: the sub-list of ilis() with that status
+        listed = [i for i in obs['ilis'] if i]
+        for st in sorted({i[1] for i in listed} | {'proposed', 'presupposed'}):
+            self.call('Wordnet.ilis(status)')
+            want = sorted((str(i[0]), str(i[2])) for i in listed if i[1] == st)
+            got = sorted((str(x.id), str(x.definition())) for x in w.ilis(status=st))
+            if got != want:
+                bad[f'ilis(status={st!r})'] = f'returned {got}, ilis() lists {want} with that status'
         return bad
 
 
